@@ -173,6 +173,11 @@ impl Hist {
         };
         let pre_len = self.w.len(self.slot).0;
         let slot = self.slot;
+        if self.f.repr {
+            // keep the pre-state: a divergence is attributed by re-running the call with host bits cleared
+            self.w.copy(self.slot, self.scratch);
+        }
+        beat(&format!("apply/{} :: {:?}", op_name(op), op));
         let act = {
             let w = &mut self.w;
             guarded(|| w.apply(slot, op))
@@ -210,10 +215,10 @@ impl Hist {
                     }
                     _ => bad.push(("injected-panic-unexpected".into(), format!("injected panic in {:?}", op))),
                 }
-                ret_owner = self.f.panic;
+                ret_owner = self.f.panic || self.f.shape;
             }
             (Err(p), _) => {
-                let own = self.f.ret || self.f.panic || (self.f.muta && is_write_op(op)) || (self.f.child && matches!(op, Op::Retain(..) | Op::RemoveChildren(_)));
+                let own = self.f.ret || self.f.panic || self.f.clone || (self.f.muta && is_write_op(op)) || (self.f.child && matches!(op, Op::Retain(..) | Op::RemoveChildren(_)));
                 return self.on_panic(ev, p, &format!("apply/{}", op_name(op)), own);
             }
             (Ok(r), _) => {
@@ -242,11 +247,13 @@ impl Hist {
                 return Flow::Stop;
             }
         }
+        beat(&format!("agree/get_key_value after {:?}", op));
         // ---- state agreement (precondition of everything else)
         if let Flow::Stop = self.check_agree(ev, op, wrote, injected) {
             return Flow::Stop;
         }
         // ---- per-property post-checks
+        beat(&format!("shape-walk after {:?}", op));
         let post_shape = match guarded(|| self.w.shape(self.slot)) {
             Ok(s) => s,
             Err(p) => return self.on_panic(ev, &p, "shape-walk", self.f.shape),
@@ -271,6 +278,7 @@ impl Hist {
         macro_rules! run {
             ($flag:expr, $name:expr, $call:expr) => {
                 if $flag {
+                    beat(&format!("check/{} after {}", $name, self.recent.back().map(|s| s.as_str()).unwrap_or("")));
                     match guarded(|| $call) {
                         Ok(mut b) => {
                             if let Some((s, m)) = b.drain(..).next() {
@@ -344,6 +352,7 @@ impl Hist {
         macro_rules! run {
             ($flag:expr, $name:expr, $call:expr) => {
                 if $flag {
+                    beat(&format!("check/{} after {}", $name, self.recent.back().map(|s| s.as_str()).unwrap_or("")));
                     match guarded(|| $call) {
                         Ok(mut b) => {
                             if let Some((s, m)) = b.drain(..).next() {
@@ -427,6 +436,29 @@ impl Hist {
                 ev.inconclusive("cannot re-base the model after a foreign finding");
                 Flow::Stop
             }
+        }
+    }
+
+    /// C18 attribution: the scratch slot holds the pre-state. Apply the same call with all host
+    /// bits cleared; if that reaches the state the model predicts, the divergence is caused by the
+    /// representation of the key (C18), otherwise it is somebody else's.
+    fn host_bits_matter(&mut self, op: &Op) -> bool {
+        let c = canon_op(op);
+        if &c == op {
+            return false;
+        }
+        let scratch = self.scratch;
+        let w = &mut self.w;
+        let items = guarded(|| {
+            w.apply(scratch, &c);
+            w.trav(scratch, Trav::Iter, None).items
+        });
+        match items {
+            Ok(items) => {
+                let exp = self.m.entries();
+                items.len() == exp.len() && items.iter().zip(&exp).all(|(a, b)| a.0.key() == b.0.key() && a.1 == b.1)
+            }
+            Err(_) => false,
         }
     }
 
@@ -806,6 +838,9 @@ impl Hist {
                     let sig = if injected { "state-after-injected-panic".to_string() } else { format!("state/{}", op_name(op)) };
                     self.viol(ev, &sig, format!("after {:?}: get_key_value({:?}) = {:?}, model says {:?}", op, q, got, exp));
                     Flow::Stop
+                } else if self.f.repr && self.host_bits_matter(op) {
+                    self.viol(ev, &format!("repr/host-bits-change-behaviour/{}", op_name(op)), format!("{:?} leaves a state that differs from the model (get_key_value({:?}) = {:?}, model {:?}), while the same call with the host bits cleared behaves as the model says", op, q, got, exp));
+                    Flow::Stop
                 } else {
                     ev.count("foreign/state_diverged", 1);
                     self.resync(ev)
@@ -995,10 +1030,13 @@ impl Hist {
                 }
             }
             // longest-prefix match is the last element
-            let l = self.w.q1(slot, Q1::GetLpm, *q);
-            if l.map(|x| x.0.key()) != exp.last().map(|x| x.0.key()) {
-                bad.push(("cover/lpm-not-last".into(), format!("get_lpm({:?}) = {:?}, last of cover is {:?}", q, l, exp.last())));
-                return bad;
+            let lpms: Vec<Q1> = if self.is_set { vec![Q1::GetLpm] } else { vec![Q1::GetLpm, Q1::GetLpmPrefix, Q1::GetLpmMut] };
+            for which in lpms {
+                let l = self.w.q1(slot, which, *q);
+                if l.map(|x| x.0.key()) != exp.last().map(|x| x.0.key()) {
+                    bad.push((format!("cover/lpm-not-last/{:?}", which), format!("{:?}({:?}) = {:?}, last of cover is {:?}", which, q, l, exp.last())));
+                    return bad;
+                }
             }
         }
         bad
@@ -1102,6 +1140,14 @@ impl Hist {
             bad.push((format!("len/drift/after={}", site), format!("len() = {} but iteration yields {} entries (after {})", len, n, last)));
         } else if empty != (n == 0) {
             bad.push(("len/is_empty".into(), format!("is_empty() = {} with {} entries", empty, n)));
+        } else if self.step_no % 4 == 0 {
+            // clone (alternately clone_from): the copy must be size-consistent as well
+            self.w.copy(self.slot, self.scratch);
+            let (cl, ce) = self.w.len(self.scratch);
+            let cn = self.w.trav(self.scratch, Trav::Iter, None).items.len();
+            if cl != cn || ce != (cn == 0) {
+                bad.push(("len/clone".into(), format!("a clone reports len() = {} / is_empty() = {} but holds {} entries", cl, ce, cn)));
+            }
         }
         bad
     }
@@ -1147,6 +1193,14 @@ impl Hist {
                         // only descend where the model has entries (plus sometimes where it has none)
                         stack.push(n2);
                     }
+                }
+            }
+            if want11 {
+                // view_at / view_mut_at called on views (whole-map view, sub-view at q, its sides)
+                for q2 in inner.iter().take(3).chain(std::iter::once(q)) {
+                    progs.push((ViewProg { root: None, nav: vec![Nav::ViewAt(*q2)] }, mutable));
+                    progs.push((ViewProg { root: Some(*q), nav: vec![Nav::ViewAt(*q2)] }, mutable));
+                    progs.push((ViewProg { root: Some(*q), nav: vec![if i % 2 == 0 { Nav::Left } else { Nav::Right }, Nav::ViewAt(*q2)] }, mutable));
                 }
             }
             if want12 {
@@ -1532,5 +1586,30 @@ pub fn is_write_op(op: &Op) -> bool {
         Op::GetMutWrite(..) | Op::GetLpmMutWrite(..) | Op::MutTravWrite(..) => true,
         Op::ViewMut(_, a) => matches!(a, VAct::ValueMutWrite(_) | VAct::PrefixValueMutWrite(_) | VAct::IterMutWrite(..) | VAct::ValuesMutWrite(..) | VAct::IntoIterWrite(..) | VAct::ReborrowThenWrite(_)),
         _ => false,
+    }
+}
+
+/// the same operation with the host bits of every prefix argument cleared
+pub fn canon_op(op: &Op) -> Op {
+    fn cn(n: &Nav) -> Nav {
+        match n {
+            Nav::Find(q) => Nav::Find(q.canon()),
+            Nav::FindExact(q) => Nav::FindExact(q.canon()),
+            Nav::FindLpm(q) => Nav::FindLpm(q.canon()),
+            Nav::ViewAt(q) => Nav::ViewAt(q.canon()),
+            x => x.clone(),
+        }
+    }
+    match op {
+        Op::Insert(p, v) => Op::Insert(p.canon(), *v),
+        Op::Remove(p) => Op::Remove(p.canon()),
+        Op::RemoveKeepTree(p) => Op::RemoveKeepTree(p.canon()),
+        Op::RemoveChildren(p) => Op::RemoveChildren(p.canon()),
+        Op::Entry(p, a) => Op::Entry(p.canon(), a.clone()),
+        Op::GetMutWrite(p, v) => Op::GetMutWrite(p.canon(), *v),
+        Op::GetLpmMutWrite(p, v) => Op::GetLpmMutWrite(p.canon(), *v),
+        Op::MutTravWrite(w, p, b, pat) => Op::MutTravWrite(*w, p.canon(), *b, *pat),
+        Op::ViewMut(prog, act) => Op::ViewMut(ViewProg { root: prog.root.map(|q| q.canon()), nav: prog.nav.iter().map(cn).collect() }, act.clone()),
+        x => x.clone(),
     }
 }
